@@ -46,6 +46,12 @@ def cases(draw, modes=("exposure", "exposure", "exposure_debug", "obs_seq", "obs
     if mode == "calibration":
         case["steps"] = 1  # a calibration with the default readout evaluates one readout per candidate
         case["pygmo_seed"] = draw(st.integers(0, 100000))
+    if mode.startswith("exposure"):
+        # history on the SAME pipeline object: edits applied between runs (enabled flags flipped, an argument changed)
+        names = [m["name"] for ms in spec["groups"].values() if ms for m in ms]
+        if names and draw(st.booleans()):
+            case["reruns"] = [[{"model": draw(st.sampled_from(names)), "enabled": draw(st.booleans())} for _ in range(draw(st.integers(1, 3)))]
+                              for _ in range(draw(st.integers(1, 2)))]
     if mode.startswith("obs"):
         case["temps"] = draw(st.lists(st.sampled_from([50.0, 100.0, 150.0, 200.0, 250.0]), min_size=1, max_size=3, unique=True))
     return case
@@ -143,6 +149,25 @@ def body(case, rec):
         if debug:
             _check_debug_tree(result, spec, steps, rec)
             # debug must not change what runs: same reference list (checked above) -> equal to debug-off trace
+        # ---- the same objects, edited and run again: the NEW configuration is what must execute
+        import copy as _copy
+
+        cur = _copy.deepcopy(spec)
+        for stage, edits in enumerate(case.get("reruns") or []):
+            rec.cls("rerun_after_edit")
+            for e in edits:
+                for g, ms in cur["groups"].items():
+                    for m in ms or []:
+                        if m["name"] == e["model"]:
+                            m["enabled"] = e["enabled"]
+                            getattr(cfg.pipeline, g).__getattr__(e["model"]).enabled = e["enabled"]
+            P.reset()
+            with rec.must_not_raise("rerun_failed"):
+                pyx.run(cfg, debug=False, sync=True)
+            obs2 = _observed(list(P.TRACE))
+            ref2 = _strip(reference_calls(cur, steps))
+            rec.check(canon(obs2) == canon(ref2), "call_list_mismatch_after_reconfiguration",
+                      lambda obs2=obs2, ref2=ref2: f"run #{stage + 2} after edits {edits}: " + _diff(obs2, ref2))
     else:
         temps = case["temps"]
         if mode == "obs_seq":
